@@ -4965,7 +4965,7 @@ Case_SimdLdurStur:
           goto InvalidAddress;
 
         rm = m.index_id();
-        if (rm > 30)
+        if (rm > 30 || m.index_type() != RegType::kGp64)
           goto InvalidAddress;
 
         // Bit 23 - PostIndex.
